@@ -69,8 +69,8 @@ VIAS = ["direct", "direct", "direct", "copy_update", "copy_update_one", "validat
 class C15:
     id = "C15"
     theorems = ["C15_roundtrip", "C15_reject", "C15_eq_pair", "C15_eq_equiv", "C15_eq_tuple", "C15_hash", "C15_lt_irrefl", "C15_lt_trans",
-                "C15_lt_trichotomy", "C15_ctx"]
-    lean_modules = ["CuriesVerif.Properties.C15"]
+                "C15_lt_trichotomy", "C15_ctx", "C15_triples_bytes"]
+    lean_modules = ["CuriesVerif.Properties.C15", "CuriesVerif.Properties.Bytes"]
     rule = ("one case = 4 references drawn from ReferenceTuple / Reference / NamableReference / NamedReference over a small "
             "pool of prefixes (no ':'), identifiers (empty, containing ':' / tab / quote / newline / carriage return, "
             "Unicode) and names, so that equal pairs occur across classes; observed: .curie, the full ==, hash-equality "
@@ -188,6 +188,13 @@ class C15:
                         back = read_triples(path)
                         if back != triples:
                             extra.append(f"write_triples / read_triples ({name}) turns {triples!r} into {back!r}")
+                        if name == "t.tsv":
+                            out["_triples"] = {
+                                "triples": [[[cps(r_.prefix), cps(r_.identifier)] for r_ in (t.subject, t.predicate, t.object)]
+                                            for t in triples],
+                                "text": cps(open(path, newline="", encoding="utf-8").read()),
+                                "back": [[[cps(r_.prefix), cps(r_.identifier)] for r_ in (t.subject, t.predicate, t.object)]
+                                         for t in back]}
                     except Exception as e:  # noqa: BLE001
                         extra.append(f"write_triples / read_triples ({name}) raised {type(e).__name__} for {triples!r}")
             finally:
@@ -224,6 +231,23 @@ class C15:
                 pz = case["parse"][i]
                 diffs.append({"step": i, "op": f"from_curie[{CLASSES[pz['c']]}]({pz['s']!r}, conv={pz['conv']})",
                               "implementation": a, "model": b})
+        return diffs + self.compare_triples(impl)
+
+    def compare_triples(self, impl):
+        """The text write_triples put on disk against the csv model (Files.triplesText), and read_triples against
+        Files.readTriples."""
+        tr = impl.get("_triples")
+        if not tr:
+            return []
+        from curies.triples import HEADER
+
+        r = common.run_driver([{"k": "triples", "header": [cps(h) for h in HEADER], "triples": tr["triples"]}])[0]
+        diffs = []
+        if r.get("text") != tr["text"]:
+            diffs.append({"step": 0, "op": "text written by write_triples", "implementation": uncps(tr["text"]),
+                          "model": uncps(r.get("text", []))})
+        if r.get("read") != tr["back"]:
+            diffs.append({"step": 0, "op": "read_triples", "implementation": tr["back"], "model": r.get("read")})
         return diffs
 
     def extra_fails(self, case, impl, resp):
